@@ -322,7 +322,15 @@ func c16Load(t *tape.Tape, a *c16Arr) (r c16Result) {
 				}
 				fsys.Files[fmt.Sprintf("part%d.graphql", j)] = []byte(txt)
 			}
-			err = root.ParseFS(fsys, "*.graphql")
+			switch t.Draw(4) {
+			case 0:
+				// patterns that overlap: a file matched twice is still one file
+				err = root.ParseFS(fsys, "*.graphql", "part0*")
+			case 1:
+				err = root.ParseFS(fsys, "part*", "*.graphql")
+			default:
+				err = root.ParseFS(fsys, "*.graphql")
+			}
 		} else {
 			err = root.ParseString(strings.Join(l, ""))
 		}
